@@ -47,6 +47,15 @@ EXTRA_SNIPPETS = [
     ("in_dict", "    assert 'a' in snapshot({'a': 1})"),
     ("in_str", "    assert 'a' in snapshot('abc')"),
     ("in_set_miss", "    try:\n        assert 4 in snapshot({1, 2})\n    except AssertionError:\n        pass"),
+    # a member of an `in` snapshot whose == raises for foreign types; the test itself passes (the search stops at the first match)
+    ("in_member_raises", "    class W:\n        def __eq__(self, o):\n            if not isinstance(o, W):\n                raise TypeError('no')\n            return True\n        def __repr__(self):\n            return 'W()'\n    assert 1 in snapshot([1, W()])"),
+    ("in_member_raises_first", "    class W:\n        def __eq__(self, o):\n            if not isinstance(o, W):\n                raise TypeError('no')\n            return True\n        def __repr__(self):\n            return 'W()'\n    assert W() in snapshot([W(), 1])"),
+    # [key] on a snapshot whose value is not written as a dict display: the test fails, the session must still finish
+    ("getitem_nondisplay", "    try:\n        assert snapshot(dict(a=1))['a'] == 1\n    except AssertionError:\n        pass"),
+    ("getitem_list", "    try:\n        assert snapshot([1, 2])[0] == 1\n    except Exception:\n        pass"),
+    # a never-compared snapshot of a defaultdict (supported type; its constructor call has fewer arguments than the adapter describes)
+    ("never_defaultdict", "    from collections import defaultdict\n    s = snapshot(defaultdict(list))"),
+    ("never_defaultdict_full", "    from collections import defaultdict\n    s = snapshot(defaultdict(list, {'a': [1+1]}))"),
 ]
 
 
